@@ -6,6 +6,12 @@ import (
 	"fmt"
 	"os"
 	"os/exec"
+	"strings"
+	"sync"
+
+	"github.com/jsightapi/jsight-schema-core/fs"
+
+	"github.com/jsightapi/jsight-api-core/kit"
 )
 
 func init() {
@@ -171,5 +177,68 @@ func c06History(args []string) *Result {
 		}
 	}
 	res.sample(map[string]any{"history_length": n, "distinct_file_states": len(fresh)})
+	return res
+}
+
+// c06-rejected-conc <source> <goroutines>: every REJECTED project of the source is built alone and then by several goroutines at
+// once (start barrier); each of the concurrent builds must report what the lone build reports: message, file, index, line, column
+// and rendered include trace.  (Builds that run side by side - or that start goroutines of their own - must not race for
+// "the" error.)
+func init() { subcmds["c06-rejected-conc"] = c06RejectedConc }
+
+func c06RejectedConc(args []string) *Result {
+	res := &Result{}
+	srcs, err := loadSources(args[0])
+	if err != nil {
+		res.Error = err.Error()
+		return res
+	}
+	G := atoi(args[1])
+	errOf := func(s projSrc) (out string) {
+		defer func() {
+			if r := recover(); r != nil {
+				out = "panic: " + fmt.Sprint(r)
+			}
+		}()
+		_, je := kit.NewJApiFromFile(fs.NewFile("root.jst", s.text))
+		if je == nil {
+			return ""
+		}
+		return fmt.Sprintf("%s|%s|%d|%d|%d|%s", je.Msg, je.File.Name(), je.Index, je.Line, je.Column, je.Error())
+	}
+	for _, s := range srcs {
+		if s.path != "" {
+			continue
+		}
+		alone := errOf(s)
+		if alone == "" || strings.HasPrefix(alone, "panic") {
+			continue
+		}
+		res.Cases++
+		res.Nontrivial++
+		got := make([]string, G)
+		start := make(chan struct{})
+		var wg sync.WaitGroup
+		for g := 0; g < G; g++ {
+			wg.Add(1)
+			go func(g int) {
+				defer wg.Done()
+				<-start
+				got[g] = errOf(s)
+			}(g)
+		}
+		close(start)
+		wg.Wait()
+		for g := 0; g < G; g++ {
+			if got[g] != alone {
+				res.mismatch("c06:rejected-concurrent", fmt.Sprintf("%s: built alone: %.200s; one of %d builds of the same project running at once: %.200s", s.name, alone, G, got[g]),
+					map[string]any{"kind": "c06-rejected-conc", "project": s.name, "text": s.text})
+				break
+			}
+		}
+		if len(res.Samples) < 2 && res.Cases%500 == 7 {
+			res.sample(map[string]any{"project": s.name, "error": firstLine(alone)})
+		}
+	}
 	return res
 }
